@@ -32,6 +32,7 @@ type result struct {
 	ErrLine  int
 	ErrPath  string
 	HasCause bool
+	CauseKind string // conv | filter | other: what kind of error Cause returns
 	Msg      string
 	IsSrcErr bool
 	PanicVal string
@@ -46,6 +47,7 @@ func (r *result) put(obs J) {
 		obs["errline"] = r.ErrLine
 		obs["errpath"] = bytesJSON(r.ErrPath)
 		obs["hascause"] = r.HasCause
+		obs["causekind"] = r.CauseKind
 		obs["msg"] = r.Msg
 		obs["srcerr"] = r.IsSrcErr
 	}
@@ -113,6 +115,14 @@ func errResult(stage string, err liquid.SourceError, root string) result {
 	}
 	r.ErrPath = p
 	r.HasCause = err.Cause() != nil
+	switch fmt.Sprintf("%T", err.Cause()) {
+	case "values.TypeError":
+		r.CauseKind = "conv"
+	case "expressions.FilterError":
+		r.CauseKind = "filter"
+	default:
+		r.CauseKind = "other"
+	}
 	r.Msg = truncate(err.Error(), 400)
 	return r
 }
